@@ -30,10 +30,12 @@ ASSUMPTIONS = [
 ]
 PROBES = ["restart_after_ge5_edits", "string_with_both_quotes", "escaped_digit_class", "block_ending_in_comment", "node_restart", "restart_via_file", "restart_via_net", "non_ascii_content", "backslash_content"]
 
-STR_CONTENT = ["x", "a b", "it's", 'say "hi"', "a'b\"c", "back\\slash", "tab\there", "é€中", "\U0001f600", "semi;colon", "brace}", "paren)", "/*no comment*/", "new\nline", "\\41 bc", "trailing\\", " lead", "", "a\\\nb"]
-IDENT_SPELL = ["a", "foo", "x1", "a-b", "_u", "-v", "né", "\\31 a", "\\31 23", "a\\.b", "a\\ b", "\\--x", "\\41 bc", "a\\c b", "\\e9 t", "\\1f600 x", "中", "a\\{b", "\\#h"]
+STR_CONTENT = ["x\\5c b", "x\\5c", "x", "a b", "it's", 'say "hi"', "a'b\"c", "back\\slash", "tab\there", "é€中", "\U0001f600", "semi;colon", "brace}", "paren)", "/*no comment*/", "new\nline", "\\41 bc", "trailing\\", " lead", "", "a\\\nb"]
+IDENT_SPELL = ["a", "foo", "x1", "a-b", "_u", "-v", "né", "\\31 a", "\\31 23", "a\\.b", "a\\ b", "\\--x", "\\41 bc", "a\\c b", "\\e9 t", "\\1f600 x", "中", "a\\{b", "\\#h",
+               # hex escapes of characters that are no name characters (delimiters of the syntax around them)
+               "a\\7b ", "a\\20 b", "a\\2c b", "a\\3e b", "a\\2e b", "a\\3b b", "a\\3a b", "a\\7c b", "b\\  c", "x\\ ", "a\\5c b", "a\\a "]
 URLS = ["x.png", "a b.png", "a(b).png", "a'b.png", 'a"b.png', "é.png", "path/to/x.png?q=1&r=2#f", "data:image/png;base64,AAAA==", "a\\b.png", "", "x y(z)'.png"]
-COMMENTS = ["c", " spaced ", "é€", "with * star", "with / slash", "a\nb", "\\41", "}{;", "'\"", "", "caf\u00e9\n  (c)", "3 \u20ac\nTTC", "\u03ba\n", "\u00e9\r\nx", "\u00e9 x", "\u00e9a", "\u00e91"]
+COMMENTS = ["\\2a/ x", "a \\5c b", "c", " spaced ", "é€", "with * star", "with / slash", "a\nb", "\\41", "}{;", "'\"", "", "caf\u00e9\n  (c)", "3 \u20ac\nTTC", "\u03ba\n", "\u00e9\r\nx", "\u00e9 x", "\u00e9a", "\u00e91"]
 
 
 def css_string(r, content):
